@@ -22,7 +22,7 @@ UNIT = {
                 ('Inner :: from ( field . remove_quotes_and_strip ( ) )', 'Inner::from_field(field.remove_quotes_and_strip())', 2),
                 ('Inner :: from ( interrupted )', 'Inner::from_interrupted(interrupted)'),
                 ('String :: with_capacity ( 1024 )', 'verif_new_prefix()'),
-                ('results . sort_unstable_by ( | a , b | a . value . cmp ( & b . value ) ) ;', 'verif_sort(&mut results);'),
+                ('results . sort_unstable_by ( | a , b | a . value . cmp ( & b . value ) ) ;', 'verif_sort(&mut results);', '*'),
                 ('Inner :: Many ( results . into_iter ( ) )', 'Inner::Many(results)'),
             ],
             'ensures': [
